@@ -1,8 +1,10 @@
 """C01 — legalization returns a legal placement or fails loudly."""
+GEN = ["GeomFns"]
 VARIANT = "san"
 RULE = "see stats"
 TIMEOUT = {"quick": 1500, "thorough": 6 * 3600, "search": 3600}
 PARTIAL = [
+    "geometry_layer_translated: the shared Rect / Cell geometry this model is written in (Rectangle ctor / height, isTurn, x / y / orientation / isFixed / isObstruction / placedWidth / placedHeight / placement) is regenerated from the clang AST of the C++ function bodies on every run (Gen/GeomFns.lean) and proved equal to the hand-written definitions; the translator's representation map (array-of-fields <-> Cell record, rows_ <-> list of Row) is stated, not derived; this is a tie, not a clause of the property",
     "never fails when success is trivial (clause 3) IS proved for all inputs (legalize_trivial_success, for every rounding of the "
     "ordering key: domain C01.Dom, all movable cells one row high with polarity ANY and an orientation other than INVALID, W any "
     "bound on the placed widths, total width <= total computeRows width - #segments*W => legalize returns; with legalize_legal the "
@@ -40,5 +42,6 @@ LEVEL_TEXT = ("Lean 4 theorems over an executable model of the whole legalizatio
               "trivial/macro-cover instances, parameters over the whole accepted range) and every normal return of the real "
               "code is checked by an independent legality oracle")
 LEVEL_NOTE = ("Trusted: Lean kernel (axioms propext/Classical.choice/Quot.sound only), the hand-written model's tie to the code "
-              "(differential, bounded by the generator), unbounded Int for C++ int, f32 model of binary32, Freespace model of boost.")
+              "(differential, bounded by the generator), tools/translate.py + clang-14 AST for Gen/GeomFns (shared geometry layer, proved equal "
+              "to the hand-written one: geometry_layer_translated), unbounded Int for C++ int, f32 model of binary32, Freespace model of boost.")
 TECHNIQUE = "Lean 4 proof + whole-pipeline model/implementation correspondence stream + independent legality oracle"
